@@ -18,6 +18,14 @@ Theorem C02_decision : forall pl v15 do_split orig conv,
   forall k, decide denb a_permit conv k = decide denb a_permit orig k.
 Proof. exact conversion_decision. Qed.
 
+(** the form the correspondence evaluates: hypothesis and certificate are both checks.  [splittable_okb]
+    accepts an entry whose ports are 'eq' lists or need no split, or whose split is a single
+    entry equal to it on the objects (single-port neq) *)
+Theorem C02_decision_checked : forall pl v15 do_split orig conv,
+  splittable_okb pl v15 orig = true -> conv_okb pl v15 do_split orig conv = true ->
+  forall k, decide denb a_permit conv k = decide denb a_permit orig k.
+Proof. exact conversion_decision_checked. Qed.
+
 (** the object-level comparison used by the certificate implies same action and same packets *)
 Theorem C02_entry_equal : forall a b,
   ace_eqb_sem a b = true -> a_permit a = a_permit b /\ forall k, denb a k = denb b k.
